@@ -6,8 +6,10 @@ From Dashu Require Import Base.Prelude Float.RoundSpec Float.RoundSpecProof Floa
   Conv.ConvSpec Conv.ConvModel Float.IeeeImportModel Float.IeeeImportProof Float.LargeExpBound Float.LargeExpRoute
   Float.AddModel Float.ElemF32 Float.ElemAsis Float.LargeExpAsis Float.LargeExpAsisProof
   Float.WithBasePrec Float.WithBasePrecProof Float.WithBasePrecRule Float.FmtPadProof Float.PartsConstModel Float.PartsConstProof
-  Float.DebugSpec Float.DebugSpecExamples.
-From DashuGen Require Import RoundTables ConvBaseGen.
+  Float.DebugSpec Float.DebugSpecExamples
+  Float.ConvBaseModel4 Float.ConvBaseFull4 Float.ConvValueSpecProof Float.ConvBaseProof4 Float.RadixFmtModel Float.RadixFmtProof
+  Float.ConvBaseGen4Proof.
+From DashuGen Require Import RoundTables ConvBaseGen ConvBaseGen4.
 Open Scope Z_scope.
 
 (** ** parsing: every text of the documented grammar (parse_spec = the grammar read from left to right: sign,
@@ -485,6 +487,211 @@ Theorem C08_from_f64_none_iff : forall bits, 0 <= bits < 2 ^ 64 ->
   (from_ieee_asis P64 bits = None <-> is_finite 53 1024 (b64_of_bits bits) = false).
 Proof. exact from_f64_none_iff. Qed.
 Print Assumptions C08_from_f64_none_iff.
+
+(** ** round 4: convert_base AS IT IS after the repairs 344196e (padded exact division, one rounding) and F10 (exact path
+    through a common root) = ONE specification of a base change, on every route without logarithm *)
+
+(** utils.rs common_root (Euclid on the exponents; fuel 128): ends on Word operands, sound, complete *)
+Theorem C08_common_root_total : forall x y, x < 2 ^ 64 -> y < 2 ^ 64 -> common_root x y <> OutOfFuel.
+Proof. exact common_root_total. Qed.
+Print Assumptions C08_common_root_total.
+
+Theorem C08_common_root_sound : forall x y r a b, x < 2 ^ 64 -> y < 2 ^ 64 -> common_root x y = Ok (Some (r, a, b)) ->
+  2 <= r /\ 1 <= a /\ 1 <= b /\ x = r ^ a /\ y = r ^ b.
+Proof. exact common_root_sound. Qed.
+Print Assumptions C08_common_root_sound.
+
+Theorem C08_common_root_complete : forall r i j, 2 <= r -> 1 <= i -> 1 <= j -> r ^ i < 2 ^ 64 -> r ^ j < 2 ^ 64 ->
+  exists g a b, common_root (r ^ i) (r ^ j) = Ok (Some (g, a, b)).
+Proof. exact common_root_complete. Qed.
+Print Assumptions C08_common_root_complete.
+
+(** the specification is a function of the exact value N/D, not of the fraction that denotes it *)
+Theorem C08_convert_value_spec_ratio : forall B, 2 <= B -> forall p m N D N' D', 0 < D -> 0 < D' -> N * D' = N' * D ->
+  convert_value_spec B p m N D = convert_value_spec B p m N' D'.
+Proof. exact convert_value_spec_ratio. Qed.
+Print Assumptions C08_convert_value_spec_ratio.
+
+(** rounding ANY representation S * NB^E of the value N/D (normalise, Context::repr_round) is the specification of N/D *)
+Theorem C08_round_norm_value_spec : forall B, 2 <= B -> forall p m S E N D, 1 <= p -> S <> 0 -> 0 < D ->
+  fst (value_frac B S E) * D = N * snd (value_frac B S E) ->
+  round_norm B p m S E = (let '(s', e', f) := convert_value_spec B p m N D in CDone s' e' f).
+Proof. exact round_norm_value_spec. Qed.
+Print Assumptions C08_round_norm_value_spec.
+
+(** the division route after the repair 344196e: padded exact division, ONE rounding = the specification of the quotient
+    (in particular the result fits the precision: no p+1-digit significands any more) *)
+Theorem C08_div_round_once_value_spec : forall NB, 2 <= NB -> forall p m n ne d de, 1 <= p -> n <> 0 -> 0 < d -> 0 <= ne -> 0 <= de ->
+  conv_of_approx NB (div_round_once NB p m n ne d de) =
+  (let '(s', e', f) := convert_value_spec NB p m (n * NB ^ ne) (d * NB ^ de) in CDone s' e' f).
+Proof. exact div_round_once_value_spec. Qed.
+Print Assumptions C08_div_round_once_value_spec.
+
+(** EVERY route: the answer is the specification of s * B^e; a panic only when the exponent of the exact common-root
+    path leaves isize; the ln/exp route only for |e| > 38 between bases without a common root *)
+Theorem C08_convert_base4_spec : forall NB, 2 <= NB -> forall B p m s e, 2 <= B < 2 ^ 64 -> NB < 2 ^ 64 -> 1 <= p -> s <> 0 ->
+  match convert_base_asis4 B NB p m s e with
+  | CDone s' e' f => (s', e', f) = convert_base_spec B NB p m s e
+  | CPanic _ => exists r a b, common_root B NB = Ok (Some (r, a, b)) /\ in_isize (e * a / b) = false
+  | CLarge => NB <> B /\ threshold_small_exp < Z.abs e /\ common_root B NB = Ok None
+  end.
+Proof. exact convert_base4_spec. Qed.
+Print Assumptions C08_convert_base4_spec.
+
+Theorem C08_convert_base4_large_no_common_root : forall NB, 2 <= NB -> forall B p m s e r i j,
+  2 <= r -> 1 <= i -> 1 <= j -> B = r ^ i -> NB = r ^ j -> B < 2 ^ 64 -> NB < 2 ^ 64 -> convert_base_asis4 B NB p m s e <> CLarge.
+Proof. exact convert_base4_large_no_common_root. Qed.
+Print Assumptions C08_convert_base4_large_no_common_root.
+
+(** the repaired model = the round-1 model (theorems C08_convert_* above) wherever the code did not change *)
+Theorem C08_convert4_agrees : forall NB, 2 <= NB -> forall B p m s e,
+  (Z.abs e <= threshold_small_exp -> 0 <= e \/ p + dlen NB (fst (normalize NB (B ^ (- e)) 0)) < dlen NB (fst (normalize NB s 0))) ->
+  (threshold_small_exp < Z.abs e -> common_root B NB = Ok None) ->
+  convert_base_asis4 B NB p m s e = convert_base_asis B NB p m s e.
+Proof. exact convert4_agrees. Qed.
+Print Assumptions C08_convert4_agrees.
+
+Theorem C08_convert_full4_other_routes : forall (F : Type) (O : f32ops F) W fuel B NB p m s e,
+  convert_base_asis4 B NB p m s e <> CLarge ->
+  convert_base_full_asis4 O W fuel B NB p m s e = convert_base_asis4 B NB p m s e.
+Proof. exact @convert_base_full_asis4_modelled. Qed.
+Print Assumptions C08_convert_full4_other_routes.
+
+Theorem C08_convert4_large_asis_round : forall (F : Type) (O : f32ops F) W fuel B NB p m s e t,
+  convert_base_asis4 B NB p m s e = CLarge ->
+  large_trace_asis O W fuel B NB p m e = Ok t ->
+  convert_base_full_asis4 O W fuel B NB p m s e =
+  round_norm NB p m (s * approx_sig (lt_exp t)) (lt_q t + approx_exp (lt_exp t)).
+Proof. exact @convert4_large_asis_round. Qed.
+Print Assumptions C08_convert4_large_asis_round.
+
+(** F10 (fixed): 3 * 4^39 to base 8 at one digit is exact; the route before the repair was the ln/exp route (CLarge in the
+    round-1 model; observed answer 2 * 8^26 NoOp in the mode Down).  Witness of 344196e: 4899e-7 at 53 bits *)
+Theorem C08_convert4_examples :
+  convert_base_asis4 4 8 1 MDown 3 39 = CDone 3 26 FExact /\
+  convert_base_asis 4 8 1 MDown 3 39 = CLarge /\
+  convert_base_spec 4 8 1 MDown 3 39 = (3, 26, FExact) /\
+  convert_base_asis4 9 27 1 MUp 2 (-40) = CDone 6 (-27) FExact /\
+  convert_base_asis4 8 4 1 MUp 5 (-39) = CDone 3 (-58) (FInexact AddOne) /\
+  convert_base_spec 8 4 1 MUp 5 (-39) = (3, -58, FInexact AddOne) /\
+  common_root 4 8 = Ok (Some (2, 2, 3)) /\ common_root 16 64 = Ok (Some (4, 2, 3)) /\ common_root 10 2 = Ok None /\
+  common_root 12 6 = Ok None /\ common_root 27 9 = Ok (Some (3, 3, 2)).
+Proof. exact convert4_examples. Qed.
+Print Assumptions C08_convert4_examples.
+
+Theorem C08_convert4_div_route_example :
+  convert_base_asis4 10 2 53 MHalfEven 4899 (-7) = CDone 4518529960855155 (-63) (FInexact AddOne) /\
+  convert_base_spec 10 2 53 MHalfEven 4899 (-7) = (4518529960855155, -63, FInexact AddOne) /\
+  convert_base_asis 10 2 53 MHalfEven 4899 (-7) = CDone 9037059921710309 (-64) (FInexact NoOp) /\
+  convert_base_asis4 10 2 3 MZero 1 100 = CLarge /\
+  convert_base_asis4 2 10 4 MHalfAway 1048575 0 = CDone 1049 3 (FInexact AddOne) /\
+  convert_base_spec 2 10 6 MHalfAway 1048575 0 = (104858, 1, FInexact AddOne).
+Proof. exact convert4_div_route_example. Qed.
+Print Assumptions C08_convert4_div_route_example.
+
+(** what is left to the ln/exp route for decimal -> binary (to_binary, to_f32, to_f64 of decimal floats): an exact result or a
+    tie needs more than 90 bits (e >= 39), resp. a source significand of more than 27 decimal digits (e <= -39) - at 24 / 53 bits
+    no value on the route sits ON a jump of the rounding function *)
+Theorem C08_decimal_binary_exact_needs_91_bits : forall s e t k j, 39 <= e -> 0 <= k -> 0 <= j -> t <> 0 ->
+  s * 10 ^ e * 2 ^ j = t * 2 ^ k -> 2 ^ 90 < Z.abs t.
+Proof. exact decimal_binary_exact_needs_91_bits. Qed.
+Print Assumptions C08_decimal_binary_exact_needs_91_bits.
+
+Theorem C08_decimal_binary_exact_neg_needs_28_digits : forall s j t k i, 39 <= j -> 0 <= k -> 0 <= i -> s <> 0 ->
+  s * 2 ^ i = t * 2 ^ k * 10 ^ j -> 10 ^ 27 < Z.abs s.
+Proof. exact decimal_binary_exact_neg_needs_28_digits. Qed.
+Print Assumptions C08_decimal_binary_exact_neg_needs_28_digits.
+
+(** ** round 4: the radix-specific formats {:b} {:o} {:x} {:X} (impl_fmt_with_base!) of FBig (mode R) and Repr (Zero) *)
+
+Theorem C08_radix_rounded_is_sci : forall B m s e prec, radix_rounded B false m s e prec = sci_rounded B m s e prec.
+Proof. exact radix_rounded_sci. Qed.
+Print Assumptions C08_radix_rounded_is_sci.
+
+Theorem C08_radix_body_positional : forall B, 2 <= B -> forall m upper mk s e prec, (s = 0 -> e = 0) -> (forall p, prec = Some p -> 0 <= p) ->
+  radix_body_asis B m upper false mk s e prec = sci_body_spec_mk mk B m upper s e prec.
+Proof. exact radix_body_positional. Qed.
+Print Assumptions C08_radix_body_positional.
+
+(** hexadecimal form: the significand is the float itself up to 4p+4 bits, else spec_round to 4p+4 bits (carry undone) *)
+Theorem C08_hex_rounded_spec : forall m s e p0, 0 <= p0 -> s <> 0 ->
+  radix_rounded 2 true m s e (Some p0) =
+    (let '(a, x) := hex_round m s e p0 in
+     if dlen 2 s <=? 4 * p0 + 4 then (s, e) else ((if s <? 0 then - a else a), x)) /\
+  (4 * p0 + 4 < dlen 2 s -> let '(a, x) := hex_round m s e p0 in 2 ^ (4 * p0) <= a < 2 ^ (4 * p0 + 4)).
+Proof. exact hex_rounded_spec. Qed.
+Print Assumptions C08_hex_rounded_spec.
+
+Theorem C08_radix_body_hex : forall m upper s e prec, (s = 0 -> e = 0) -> (forall p, prec = Some p -> 0 <= p) ->
+  radix_body_asis 2 m upper true 112 s e prec = hex_body_spec m upper s e prec.
+Proof. exact radix_body_hex. Qed.
+Print Assumptions C08_radix_body_hex.
+
+(** the WHOLE text (sign, 0x, zeros / fill, body) of every format that exists *)
+Theorem C08_radix_format_text_asis_spec : forall B t upper hex mk m f s e prec, radix_format B t = Some (upper, hex, mk) ->
+  (s = 0 -> e = 0) -> (forall p, prec = Some p -> 0 <= p) ->
+  radix_asis B m upper hex mk f s e prec = radix_spec B m upper hex mk f s e prec.
+Proof. exact radix_format_text_asis_spec. Qed.
+Print Assumptions C08_radix_format_text_asis_spec.
+
+Theorem C08_radix_examples :
+  radix_body_asis 2 MHalfEven false true 112 0xabcd 0 (Some 2) = [97; 46; 98; 100; 112; 49; 50] /\
+  radix_body_spec 2 MHalfEven false true 112 0xabcd 0 (Some 2) = [97; 46; 98; 100; 112; 49; 50] /\
+  radix_body_asis 2 MZero false true 112 0xabcd 0 (Some 2) = [97; 46; 98; 99; 112; 49; 50] /\
+  radix_body_asis 2 MHalfAway false true 112 0x1ff 0 (Some 1) = [49; 46; 48; 112; 57] /\
+  radix_body_spec 2 MHalfAway false true 112 0x1ff 0 (Some 1) = [49; 46; 48; 112; 57] /\
+  radix_body_asis 2 MUp false false 98 21 0 (Some 1) = [49; 46; 49; 98; 52] /\
+  radix_body_spec 2 MUp false false 98 21 0 (Some 1) = [49; 46; 49; 98; 52] /\
+  radix_asis 2 MZero true true 112 (mkflags true false true None (Some 12) [32]) 0x1f (-3) (Some 2)
+    = [43; 48; 120; 48; 48; 48; 49; 46; 70; 48; 112; 49] /\
+  radix_spec 2 MZero true true 112 (mkflags true false true None (Some 12) [32]) 0x1f (-3) (Some 2)
+    = [43; 48; 120; 48; 48; 48; 49; 46; 70; 48; 112; 49] /\
+  radix_asis 8 MAway false false 111 (mkflags false false false (Some ACenter) (Some 10) [42]) (-511) 2 (Some 1)
+    = [42; 42; 45; 49; 46; 48; 111; 53; 42; 42] /\
+  radix_format 2 TLowerHex = Some (false, true, 112) /\ radix_format 16 TUpperHex = Some (true, false, 104) /\
+  radix_format 10 TLowerHex = None.
+Proof. exact radix_examples. Qed.
+Print Assumptions C08_radix_examples.
+
+(** ** round 4: fragments regenerated from fmt.rs / parse.rs / utils.rs / convert.rs on every run (coq/gen/ConvBaseGen4.v) are
+    what the models use: an edit of the source breaks one of these *)
+
+Theorem C08_gen4_fmt_rounded : forall B m s e prec, fmt_rounded_gen B m s e prec = fmt_rounded B m s e prec.
+Proof. exact fmt_rounded_gen_eq. Qed.
+Print Assumptions C08_gen4_fmt_rounded.
+
+Theorem C08_gen4_sci_rounded : forall B hex m s e prec, sci_rounded_gen B hex m s e prec = radix_rounded B hex m s e prec.
+Proof. exact sci_rounded_gen_eq. Qed.
+Print Assumptions C08_gen4_sci_rounded.
+
+Theorem C08_gen4_sci_rounded_lowerexp : forall B m s e prec, sci_rounded_gen B false m s e prec = sci_rounded B m s e prec.
+Proof. exact sci_rounded_gen_sci. Qed.
+Print Assumptions C08_gen4_sci_rounded_lowerexp.
+
+Theorem C08_gen4_radix_format : forall B t, radix_format_gen B t = radix_format B t.
+Proof. exact radix_format_gen_eq. Qed.
+Print Assumptions C08_gen4_radix_format.
+
+Theorem C08_gen4_marker_set : forall B has_prefix c, marker_set_gen B has_prefix c = is_marker B has_prefix c.
+Proof. exact marker_set_gen_eq. Qed.
+Print Assumptions C08_gen4_marker_set.
+
+Theorem C08_gen4_common_root_loop : forall fuel u v,
+  common_root_loop (S fuel) u v =
+  if u =? v then Ok (Some u)
+  else match common_root_body_gen u v with
+       | None => Ok None
+       | Some (u', v') => common_root_loop fuel u' v'
+       end.
+Proof. exact common_root_loop_gen. Qed.
+Print Assumptions C08_gen4_common_root_loop.
+
+Theorem C08_gen4_convert_root : forall NB p m s e root a b,
+  convert_root NB p m s e root a b =
+  (let '(signif, q) := convert_root_gen s e root a b in
+   if in_isize q then round_norm NB p m signif q else CPanic Undocumented).
+Proof. exact convert_root_gen_eq. Qed.
+Print Assumptions C08_gen4_convert_root.
 
 (** ** the defects found, as theorems about the old behaviour / the observed answers *)
 
